@@ -291,11 +291,14 @@ theorem handleRequest_cache (c : Core) (env : Env) (src : Addr) (ro : Bool) (ver
       · split <;> exact ⟨rfl, rfl⟩
       · exact ⟨rfl, rfl⟩
     · exact ⟨rfl, rfl⟩
-  unfold handleRequest serveRequest
-  obtain ⟨a1, a2⟩ := h2 (maybeAddNodeFromRequest c src version ro req env.now)
+  unfold handleRequest
   split
-  · exact ⟨a1.trans h1.1, a2.trans h1.2⟩
-  · exact ⟨a1.trans h1.1, a2.trans h1.2⟩
+  · exact ⟨rfl, rfl⟩
+  · unfold serveRequest
+    obtain ⟨a1, a2⟩ := h2 (maybeAddNodeFromRequest c src version ro req env.now)
+    split
+    · exact ⟨a1.trans h1.1, a2.trans h1.2⟩
+    · exact ⟨a1.trans h1.1, a2.trans h1.2⟩
 
 theorem addResponder_cache (c : Core) (now : Nat) (src : Addr) (m : Message) :
     (addResponder c now src m).iter = c.iter ∧ (addResponder c now src m).cache = c.cache := by
